@@ -55,20 +55,49 @@ class Driver:
         return json.loads(self._readline(timeout))
 
     def call_many(self, reqs, timeout=120, window=64):
-        """Pipelined calls; replies in order."""
+        """Pipelined calls; replies in order. Requests are written and replies read in one select() loop, so neither side can block
+        the other: a request or a reply may be far larger than a pipe buffer (a 70 KB query, a reply with 1500 results)."""
         out = []
-        sent = 0
         n = len(reqs)
-        while len(out) < n:
-            while sent < n and sent - len(out) < window:
-                data = (json.dumps(reqs[sent], ensure_ascii=False) + "\n").encode("utf-8")
-                try:
-                    self.proc.stdin.write(data)
-                except (BrokenPipeError, OSError) as e:
-                    raise DriverDied(str(e))
-                sent += 1
-            self.proc.stdin.flush()
-            out.append(json.loads(self._readline(timeout)))
+        sent = 0
+        pending = b""
+        rfd, wfd = self.proc.stdout.fileno(), self.proc.stdin.fileno()
+        os.set_blocking(wfd, False)
+        try:
+            deadline = time.time() + timeout
+            while len(out) < n:
+                if not pending and sent < n and sent - len(out) < window:
+                    pending = (json.dumps(reqs[sent], ensure_ascii=False) + "\n").encode("utf-8")
+                    sent += 1
+                while b"\n" in self.buf and len(out) < n:
+                    line, self.buf = self.buf.split(b"\n", 1)
+                    out.append(json.loads(line))
+                    deadline = time.time() + timeout          # the timeout is per reply
+                if len(out) >= n:
+                    break
+                if not pending and sent < n and sent - len(out) < window:
+                    continue
+                r, w, _ = select.select([rfd], [wfd] if pending else [], [], max(0.0, deadline - time.time()))
+                if not r and not w:
+                    raise DriverTimeout()
+                if w:
+                    try:
+                        k = os.write(wfd, pending[:1 << 16])
+                        pending = pending[k:]
+                    except BlockingIOError:
+                        pass
+                    except (BrokenPipeError, OSError) as e:
+                        raise DriverDied(str(e))
+                if r:
+                    chunk = os.read(rfd, 1 << 16)
+                    if not chunk:
+                        raise DriverDied("exit status %r" % (self.proc.poll(),))
+                    self.buf += chunk
+        finally:
+            try:
+                os.set_blocking(wfd, True)
+            except OSError:
+                pass
         return out
 
     def close(self, kill=False):
